@@ -74,7 +74,7 @@ func extractSlotContent(node *html.Node) *SlotScope {
 		if c.Type != html.ElementNode {
 			if c.Type == html.TextNode {
 				// Text nodes go to default slot unless they're only whitespace
-				if trimmedText := strings.TrimSpace(c.Data); trimmedText != "" {
+				if !helpers.IsHTMLBlank(c.Data) {
 					defaultSlotContent = append(defaultSlotContent, helpers.CloneNode(c))
 				}
 			}
